@@ -513,6 +513,24 @@ class CopyGroup(_H5Scenario):
             [d for d in p2.children if d.name == "pd"][0].values = mk_array(X, [5.0, 6.0], (2,), "float64")
             _prove_same(cx, flat(tree(g)), before, "source subtree after the copy was edited", "edits do not show through")
             live2 = flat(tree(g2))
+            copy_before = dict(before)
+            if self.params.get("edit_copy"):
+                # the copy grows: a new hole with a log of its own is added to the COPY only
+                from geoh5py.objects import Drillhole
+
+                def attr_names(grp):
+                    return sorted(str(a.get("Name")) for a in (grp.concatenated_attributes or {}).get("Attributes", []))
+                names_before = attr_names(g)
+                nh = Drillhole.create(g2.workspace, parent=g2, name="extra", collar=mk_array(X, [1.0, 2.0, 3.0], (3,), "float64"),
+                                      surveys=mk_array(X, [0.0, 0.0, -90.0, 10.0, 0.0, -90.0], (2, 3), "float64"))
+                nh.add_data({"other": {"depth": mk_array(X, [1.0, 2.0], (2,), "float64"),
+                                       "values": mk_array(X, [41.0, 42.0], (2,), "float64")}})
+                cx.prove(attr_names(g) == names_before,
+                         f"the source group's concatenated attributes list the same entities after the copy gained a hole "
+                         f"({len(names_before)} before, {len(attr_names(g))} after)", "edits do not show through")
+                _prove_same(cx, flat(holes_of(g)), before, "source holes after the copy gained a hole", "edits do not show through")
+                copy_before = flat(holes_of(g2))
+                cx.prove(any(k.startswith("extra") for k in copy_before), "the copy shows its new hole", "edits do not show through")
             ug, ug2 = g.uid, g2.uid
             if cross:
                 t2, gg2 = _reread(tws, ug2)
@@ -583,6 +601,24 @@ class CopyDrillholeGroup(_H5Scenario):
             _prove_same(cx, flat(holes_of(g2)), before, "holes of the copy vs holes of the source", "holes reproduced")
             _prove_same(cx, extras_of(g2), extras_before, "ordinary children of the group (comments)", "holes reproduced")
             _prove_same(cx, flat(holes_of(g)), before, "source holes after the copy", "source undisturbed")
+            copy_before = dict(before)
+            if self.params.get("edit_copy"):
+                # the copy grows: a new hole with a log of its own is added to the COPY only
+                from geoh5py.objects import Drillhole
+
+                def attr_names(grp):
+                    return sorted(str(a.get("Name")) for a in (grp.concatenated_attributes or {}).get("Attributes", []))
+                names_before = attr_names(g)
+                nh = Drillhole.create(g2.workspace, parent=g2, name="extra", collar=mk_array(X, [1.0, 2.0, 3.0], (3,), "float64"),
+                                      surveys=mk_array(X, [0.0, 0.0, -90.0, 10.0, 0.0, -90.0], (2, 3), "float64"))
+                nh.add_data({"other": {"depth": mk_array(X, [1.0, 2.0], (2,), "float64"),
+                                       "values": mk_array(X, [41.0, 42.0], (2,), "float64")}})
+                cx.prove(attr_names(g) == names_before,
+                         f"the source group's concatenated attributes list the same entities after the copy gained a hole "
+                         f"({len(names_before)} before, {len(attr_names(g))} after)", "edits do not show through")
+                _prove_same(cx, flat(holes_of(g)), before, "source holes after the copy gained a hole", "edits do not show through")
+                copy_before = flat(holes_of(g2))
+                cx.prove(any(k.startswith("extra") for k in copy_before), "the copy shows its new hole", "edits do not show through")
             ug, ug2 = g.uid, g2.uid
             if cross:
                 t2, gg2 = _reread(tws, ug2)
@@ -595,7 +631,7 @@ class CopyDrillholeGroup(_H5Scenario):
                 _prove_same(cx, flat(holes_of(gg)), before, "source holes re-read from the file", "stored")
                 _prove_same(cx, extras_of(gg), extras_before, "source comments re-read", "stored")
             if gg2 is not None:
-                _prove_same(cx, flat(holes_of(gg2)), before, "holes of the copy re-read from its file", "stored")
+                _prove_same(cx, flat(holes_of(gg2)), copy_before, "holes of the copy re-read from its file", "stored")
                 _prove_same(cx, extras_of(gg2), extras_before, "comments of the copy re-read", "stored")
             w2.close()
             if t2 is not None:
@@ -722,7 +758,8 @@ def scenarios(tier, seed):
             S.append(CopySurvey(cross=cross, children=ch))
     if tier != "quick":
         S += [CopySurvey(cross=c_, children=True, reopen_first=True) for c_ in (False, True)]
-    S += [CopyDrillholeGroup(cross=True, sizes=[2, 1], target=0), CopyDrillholeGroup(cross=False, sizes=[1, 2], target=1)]
+    S += [CopyDrillholeGroup(cross=True, sizes=[2, 1], target=0), CopyDrillholeGroup(cross=False, sizes=[1, 2], target=1),
+          CopyDrillholeGroup(cross=True, sizes=[2, 1], target=1, edit_copy=True), CopyDrillholeGroup(cross=False, sizes=[1, 1], target=0, edit_copy=True)]
     return S
 
 
@@ -735,7 +772,7 @@ def main(tier, seed):
                      "A-H5: symbolic payloads are kept beside the real HDF5 files by a proxy and handed back unchanged",
                      "float data values differ from the float no-data sentinel (documented exception)"],
         outside=["survey classes other than airborne time-domain EM receivers (CopySurvey); partner links of surveys (C20)",
-                 "editing the copy of a drillhole group (decided under C04, CopyGroupThenEdit)",
+                 "editing the copy of a drillhole group other than adding one hole with one log to it (value edits are decided under C04, CopyGroupThenEdit)",
                  "masked copies and copies by extent (C07 MaskedCopy, C13)", "geo-images, file-name data, visual parameters",
                  "copy options other than parent / copy_children (clear_cache is exercised under C07)"],
         bounds="one object per class {Points, Curve, Surface, Grid2D 2x3, BlockModel 2x1x2, Octree, DrapeModel, Drillhole} with 2-6 "
